@@ -67,9 +67,24 @@ def run(tier):
                 steps.append({"op": "render_str", "src": "{{ s | b64_encode(%s) }}" % o, "auto": False})
                 steps.append({"op": "render_str", "src": "{{ s | b64_encode(%s) | b64_decode(url_safe=%s) }}" % (o, "true" if us else "false"), "auto": False})
                 steps.append({"op": "render_str", "src": "{{ ('!' ~ (s | b64_encode(%s))) | b64_decode(url_safe=%s) }}" % (o, "true" if us else "false"), "auto": False})
+                steps.append({"op": "render_str", "src": "{{ nc%d%d | b64_decode(url_safe=%s) }}" % (us, pad, "true" if us else "false"), "auto": False})
         steps += [{"op": "render_str", "src": "{{ s | urlencode }}", "auto": False}, {"op": "render_str", "src": "{{ s | urlencode_strict }}", "auto": False},
                   {"op": "render_str", "src": "{{ s | slug }}", "auto": False}]
-        jobs.append({"cfg": {"contrib": True}, "ctx": {"s": s}, "steps": steps})
+        # a text with left-over bits set in its last symbol: in the alphabet, of the right length, but produced by no encoder
+        ctx = {"s": s}
+        import base64 as _b
+        for us in (False, True):
+            for pad in (False, True):
+                raw = s.encode()
+                e = (_b.urlsafe_b64encode(raw) if us else _b.b64encode(raw)).decode()
+                body = e.rstrip("=")
+                nc = "!"            # (nothing to corrupt when the length is a multiple of 3: an out-of-alphabet text stands in)
+                if len(raw) % 3:
+                    alpha = "ABCDEFGHIJKLMNOPQRSTUVWXYZabcdefghijklmnopqrstuvwxyz0123456789" + ("-_" if us else "+/")
+                    nc = body[:-1] + alpha[alpha.index(body[-1]) | 1] + (e[len(body):] if pad else "")
+                    assert nc != (e if pad else body)
+                ctx["nc%d%d" % (us, pad)] = nc
+        jobs.append({"cfg": {"contrib": True}, "ctx": ctx, "steps": steps})
     # JSON values
     scal = [None, True, False, 0, -1, 2**63 - 1, -2**63, 2**64 - 1, 2**64, -2**63 - 1, 2**127 - 1, -2**127, 2**128 - 1, 0.5, -2.25, 1e300, "", "a\"b\\c", "\n\t\x01", "é世\U0001F600", "</script>"]
     vals = list(scal) + [{-1: "x", 5: "y"}, {-2**63: 1, 2**70: [2], 0: None}, {True: 1, "a": {-7: "neg"}}, [], {}, [1, "a", None], {"a": 1, "b": [True, {"c": "d\""}]}, {"é": {"\"": [[], {}]}}, [[["x"]]], {"k": 0.5, "z": [1.5, -1]}]
@@ -103,14 +118,14 @@ def run(tier):
             k = 0
             for us in (False, True):
                 for pad in (False, True):
-                    e, d, b = rr[k], rr[k + 1], rr[k + 2]
-                    k += 3
-                    C.count(3)
+                    e, d, b, ncr = rr[k], rr[k + 1], rr[k + 2], rr[k + 3]
+                    k += 4
+                    C.count(4)
                     if not e.get("ok"):
                         C.violation({"kind": "b64-error", "s": s}, "b64_encode failed on %r" % s, {"s": s, "result": e})
                         continue
                     o = {"f": "b64", "s": cps(s), "utf8": list(s.encode()), "enc": cps(e["out"]), "urlsafe": us, "padded": pad, "decok": bool(d.get("ok")),
-                         "dec": cps(d.get("out", "")) if d.get("ok") else [], "badok": bool(b.get("ok")), "src": s}
+                         "dec": cps(d.get("out", "")) if d.get("ok") else [], "badok": bool(b.get("ok")), "ncok": bool(ncr.get("ok")), "src": s}
                     f.write(json.dumps(o) + "\n")
                     recs.append(o)
             for name, strict in (("urlencode", False), ("urlencode_strict", True)):
